@@ -567,3 +567,99 @@ Proof.
   intros A R E. rewrite (csv_load_render sep chs final hdr recs text keys A R).
   unfold load_expect. rewrite (widths_ok_ragged _ _ E). reflexivity.
 Qed.
+
+(* ---------- a request program per row (C03) ---------- *)
+
+(* what the rows answer: row i under the i-th program, through the column cursor (read_spec) *)
+Fixpoint hist_rows (hdr : record) (progs : list (list field)) (t : table) : list (list (option field)) :=
+  match t with
+  | [] => []
+  | rec :: t' => read_spec hdr rec (hd [] progs) 0 :: hist_rows hdr (tl progs) t'
+  end.
+
+Lemma load_hist_spec sep hdr : sane_sep sep ->
+  forall t progs chs final body pre fuel r acc,
+  ((t = [] /\ body = []) \/ render sep chs final t = Some body) ->
+  r_src r = pre ++ body -> r_pos r = length pre -> r_headers r = hdr ->
+  (length body < fuel)%nat ->
+  m_load_hist fuel sep progs r acc =
+    if widths_ok hdr t then Ok (acc ++ hist_rows hdr progs t) else Err ParsingError.
+Proof.
+  intros S. induction t as [|rec t IH]; intros progs chs final body pre fuel r acc Hb Hsrc Hpos Hhdr Hfuel.
+  - destruct Hb as [[_ ->]|Hb]; [|rewrite render_nil in Hb; discriminate].
+    destruct fuel as [|fuel]; [lia|]. cbn [m_load_hist]. unfold m_is_end. rewrite Hsrc, Hpos, app_nil_r, Nat.leb_refl.
+    cbn. rewrite app_nil_r. reflexivity.
+  - destruct Hb as [[Hb _]|Hb]; [discriminate|].
+    pose proof (render_nonempty _ _ _ _ _ Hb) as Hbne.
+    destruct (render_shape _ _ _ _ _ _ Hb) as (ch & chs' & a & rest & n & tail & -> & Ha & -> & LR & Hprog & Erest & Hn & Htail).
+    destruct fuel as [|fuel]; [lia|]. cbn [m_load_hist].
+    unfold m_is_end. rewrite Hsrc, Hpos.
+    replace (Nat.leb (length (pre ++ a ++ rest)) (length pre)) with false.
+    2:{ symmetry. apply Nat.leb_gt. rewrite app_length. destruct (a ++ rest); [congruence|]. cbn. lia. }
+    unfold m_parse_next_row.
+    rewrite (m_parse_next_line_record sep S r pre a rest n (ch_quotes ch) rec Hsrc Hpos Ha LR Hbne).
+    cbn [r_headers r_metas r_line r_prev r_src r_pos r_rowidx andb negb].
+    rewrite (rec_metas_length sep rec _ a _ Ha), Hhdr.
+    unfold widths_ok. cbn [forallb]. fold (widths_ok hdr t). change (@length field) with (@length (list N)) in *. rewrite (Nat.eqb_sym (@length (list N) rec) (@length (list N) hdr)).
+    destruct (Nat.eqb (@length (list N) hdr) (@length (list N) rec)) eqn:Ew; cbn [negb andb]; [|reflexivity].
+    apply Nat.eqb_eq in Ew.
+    match goal with |- context [m_read_keys ?rr _ []] => set (r1 := rr) end.
+    destruct (m_read_keys_gen rec (hd [] progs) r1 []) as (r2 & E2 & (B1 & B2 & B3 & B4)).
+    { subst r1. cbn [r_headers]. symmetry. exact Ew. }
+    { subst r1. cbn [r_src r_metas]. rewrite Hsrc. apply (rec_values sep). exact Ha. }
+    rewrite E2. cbv beta iota.
+    subst r1. cbn [r_src r_headers r_metas r_pos app] in *.
+    etransitivity.
+    { apply (IH (tl progs) chs' final tail (pre ++ a ++ firstn n rest) fuel r2 (acc ++ [read_spec hdr rec (hd [] progs) 0])).
+      + exact Htail.
+      + rewrite B1, Hsrc. rewrite Erest at 1. rewrite <- !app_assoc. reflexivity.
+      + rewrite B4, !app_length, Hn. lia.
+      + exact B2.
+      + rewrite app_length in Hfuel. rewrite Erest, app_length, Hn in Hfuel. lia. }
+    destruct (widths_ok hdr t); [|reflexivity].
+    cbn [hist_rows]. rewrite <- app_assoc. reflexivity.
+Qed.
+
+Definition hist_expect (hdr : record) (progs : list (list field)) (rows : table) : outcome (list (list (option field))) :=
+  if widths_ok hdr rows then Ok (hist_rows hdr progs rows) else Err ParsingError.
+
+Theorem csv_load_hist_render sep chs final hdr rows text progs : allowed sep ->
+  render sep chs final (hdr :: rows) = Some text ->
+  csv_load_hist sep progs text = hist_expect hdr progs rows.
+Proof.
+  intros A R. pose proof (allowed_sane sep A) as S.
+  unfold csv_load_hist. rewrite (allowed_validate sep A). cbn [negb].
+  pose proof (render_nonempty _ _ _ _ _ R) as Hne.
+  destruct (render_shape _ _ _ _ _ _ R) as (ch & chs' & a & rest & n & tail & -> & Ha & -> & LR & Hprog & Erest & Hn & Htail).
+  unfold m_new.
+  rewrite (m_parse_next_line_record sep S (mkM (a ++ rest) [] [] 0 0 0 0 0) [] a rest n (ch_quotes ch) hdr);
+    try reflexivity; try assumption.
+  cbn [r_src r_headers r_metas r_pos r_line r_rowidx r_validx r_prev length Nat.add].
+  match goal with |- context [m_read_headers _ ?rr []] => set (r1 := rr) end.
+  destruct (m_read_headers_spec hdr (length (rec_metas 0 (ch_quotes ch) hdr)) r1 []) as (r2 & E2 & (B1 & B2 & B3 & B4)).
+  { subst r1. cbn [r_src r_metas]. apply (rec_values sep hdr _ a [] rest Ha). }
+  { subst r1. cbn [r_validx]. rewrite (rec_metas_length sep hdr _ a 0 Ha). lia. }
+  rewrite E2. cbv beta iota. subst r1. cbn [r_validx skipn app r_src r_pos] in *.
+  unfold hist_expect.
+  apply (load_hist_spec sep hdr S rows progs chs' final tail (a ++ firstn n rest)).
+  - exact Htail.
+  - cbn [r_src]. rewrite B1. rewrite Erest at 1. rewrite <- app_assoc. reflexivity.
+  - cbn [r_pos]. rewrite B4, app_length, Hn. reflexivity.
+  - reflexivity.
+  - rewrite app_length. rewrite Erest. rewrite app_length, Hn. lia.
+Qed.
+
+(* distinct header names: every request is answered by the column of that name, None when there is none; what was
+   requested before plays no role *)
+Fixpoint hist_named (hdr : record) (progs : list (list field)) (t : table) : list (list (option field)) :=
+  match t with
+  | [] => []
+  | rec :: t' => map (cell hdr rec) (hd [] progs) :: hist_named hdr (tl progs) t'
+  end.
+
+Lemma hist_rows_named hdr : NoDup hdr -> forall rows progs, uniform hdr rows -> hist_rows hdr progs rows = hist_named hdr progs rows.
+Proof.
+  intros ND. induction rows as [|rec rows IH]; intros progs U; [reflexivity|].
+  unfold uniform in *. inversion U as [|? ? Hl U']. subst. cbn [hist_rows hist_named].
+  rewrite (read_spec_nodup hdr rec ND Hl), (IH (tl progs) U'). reflexivity.
+Qed.
